@@ -22,6 +22,8 @@ func init() {
 	} {
 		assumeSite("C16-HANDLER", e[0], e[1])
 	}
+	assumeSite("C16-SKIP", "cmd/compile.(Generator).emitStructLiteral#skips-element", "skips the embedded *Node (re-created as node.NewNode(from)) and fields tagged pp:\"-\", which are caches by the repository's convention (checked: all such fields are unexported resolution caches)")
+	assumeSite("C16-SKIP", "cmd/compile.(Generator).emitStructValue#skips-element", "skips the embedded Node only, which is re-created")
 	register(&PropDef{
 		ID:          "C16",
 		Patterns:    []string{"./cmd/compile", "./node", "./data"},
@@ -34,6 +36,7 @@ func init() {
 			{Name: "C16-HANDLER", Floor: 25, Doc: "each special handler reads every content field of its node type", Run: c16Run},
 			{Name: "C16-TABLE", Floor: 25, Doc: "each handler asserts exactly the type it is registered for", Run: nop},
 			{Name: "C16-DECL", Floor: 2, Doc: "declarations that the parser registers in the VM instead of the AST (classes, interfaces) are re-attached to the program of every file shape", Run: nop},
+			{Name: "C16-SKIP", Floor: 20, Doc: "no emitter loop skips an element of what it emits (no continue), and string content is written only through %q: nothing is dropped or altered on the way into the generated source", Run: nop},
 			{Name: "C16-ERR", Floor: 5, Doc: "the reflective emitter reports every shape it cannot translate", Run: nop},
 		},
 	})
@@ -372,6 +375,83 @@ func c16Run(r *Run) {
 			r.ok(key, fd.Pos(), "interfaces registered by the parser are enumerated and re-attached")
 		} else {
 			r.bad(key, fd.Pos(), "interfaces are registered by the parser in the VM and never re-attached to the emitted program: compiled code has no interface declarations (and their constants)")
+		}
+	}
+
+	// ---- SKIP / QUOTE ----
+	r.curRule = "C16-SKIP"
+	for _, fd := range funcDecls(cp) {
+		isEmitter := recvTypeName(fd) == "Generator" || strings.HasPrefix(fd.Name.Name, "emit") || strings.HasPrefix(fd.Name.Name, "gen")
+		if !isEmitter {
+			continue
+		}
+		fk := funcKey(cp, fd)
+		skips := 0
+		var walk func(n ast.Node, inLoop bool)
+		walk = func(n ast.Node, inLoop bool) {
+			ast.Inspect(n, func(m ast.Node) bool {
+				if m == n {
+					return true
+				}
+				switch x := m.(type) {
+				case *ast.FuncLit:
+					return false
+				case *ast.ForStmt:
+					walk(x.Body, true)
+					return false
+				case *ast.RangeStmt:
+					walk(x.Body, true)
+					return false
+				case *ast.BranchStmt:
+					if x.Tok == token.CONTINUE && inLoop {
+						skips++
+						r.bad(fk+"#skips-element", x.Pos(), "an emitter loop skips an element with `continue`: that part of the program is silently absent from the generated source")
+					}
+				}
+				return true
+			})
+		}
+		walk(fd.Body, false)
+		// quoting: dynamic string content between quote characters must go through %q
+		badQuote := false
+		ast.Inspect(fd.Body, func(m ast.Node) bool {
+			switch x := m.(type) {
+			case *ast.BinaryExpr:
+				if x.Op == token.ADD {
+					for _, side := range []ast.Expr{x.X, x.Y} {
+						if bl, ok := ast.Unparen(side).(*ast.BasicLit); ok && bl.Kind == token.STRING {
+							if v, err := strconv.Unquote(bl.Value); err == nil && (strings.HasSuffix(v, "`") || strings.HasPrefix(v, "`") || strings.HasSuffix(v, "\"") || strings.HasPrefix(v, "\"")) {
+								other := x.Y
+								if side == x.Y {
+									other = x.X
+								}
+								if tv, ok := info.Types[other]; ok && tv.Value == nil {
+									if b, ok := tv.Type.Underlying().(*types.Basic); ok && b.Info()&types.IsString != 0 {
+										badQuote = true
+										r.bad(fk+"#raw-quoting", x.Pos(), "string content is wrapped in quote characters by concatenation instead of %q: characters that the chosen literal form cannot hold (\\r in a raw string, a quote, a backslash) are altered in the compiled program")
+									}
+								}
+							}
+						}
+					}
+				}
+			case *ast.CallExpr:
+				// printf("…\"%s\"…") / printf("`%s`")
+				if len(x.Args) >= 2 {
+					if bl, ok := ast.Unparen(x.Args[0]).(*ast.BasicLit); ok && bl.Kind == token.STRING {
+						if f, err := strconv.Unquote(bl.Value); err == nil {
+							if strings.Contains(f, "\"%s\"") || strings.Contains(f, "\"%v\"") || strings.Contains(f, "`%s`") || strings.Contains(f, "`%v`") {
+								badQuote = true
+								r.bad(fk+"#raw-quoting", x.Pos(), "a %s/%v verb between quote characters writes string content unescaped into the generated source")
+							}
+						}
+					}
+				}
+			}
+			return true
+		})
+		if skips == 0 && !badQuote {
+			r.ok(fk+"#emits-everything-quoted", fd.Pos(), "no element is skipped and no string content bypasses %q")
 		}
 	}
 
